@@ -272,6 +272,12 @@ class Built:
         # graph is queried (which computes whatever the library caches), and
         # the edges are removed again; the run must then behave as if they
         # had never been there
+        dangle = scn.get('dangle')
+        if dangle:
+            # requirements that leave their scheduler, removed by sanitize()
+            for r, j in dangle:
+                self.obj[j].requires(self.obj[r])
+            self.top.sanitize()
         pre = scn.get('pre')
         late = scn.get('late')
         if pre or late:
@@ -308,7 +314,28 @@ class Built:
                         for r in n.get('req', ())]
                 if reqs:
                     o.requires(*reqs)
-            obj = (VPure if k == 'pure' else VSched)(spec, kids)
+            build = self.scn.get('build')
+            if build == 'addrev':
+                # populated incrementally, dependents first
+                obj = (VPure if k == 'pure' else VSched)(spec, [])
+                order = self._topo(spec['nodes'])
+                for n in reversed(order):
+                    obj.add(byname[n])
+            elif build == 'update':
+                obj = (VPure if k == 'pure' else VSched)(spec, [])
+                obj.update(list(reversed(kids)))
+            elif build == 'lateattrs':
+                # attributes assigned after construction, as the tests do
+                bare = dict(spec, window=None, timeout=None, sdt=1,
+                            verbose=False)
+                obj = (VPure if k == 'pure' else VSched)(bare, kids)
+                obj.vspec = spec
+                obj.jobs_window = spec.get('window')
+                obj.timeout = spec.get('timeout')
+                obj.shutdown_timeout = spec.get('sdt', 1)
+                obj.verbose = spec.get('verbose', False)
+            else:
+                obj = (VPure if k == 'pure' else VSched)(spec, kids)
         elif k == 'job':
             obj = VJob(spec)
         elif k == 'coro':
@@ -323,6 +350,16 @@ class Built:
             raise ValueError(k)
         self.obj[name] = obj
         return obj
+
+    @staticmethod
+    def _topo(nodes):
+        done, order = set(), []
+        while len(order) < len(nodes):
+            for n in nodes:
+                if n['name'] not in done and set(n.get('req', ())) <= done:
+                    done.add(n['name'])
+                    order.append(n['name'])
+        return order
 
     def is_sched(self, name):
         return name in self.children
